@@ -87,6 +87,8 @@ package lexer
 //@   ensures [C19:inv] LexInv(l) && Advanced(l, old(l.position), old(l.input), old(l.lineNumber))
 //@   ensures [C18:progress] result ==> l.position > old(l.position)
 //@   ensures [C19:unmoved] !result ==> (l.position == old(l.position) && l.ch == old(l.ch))
+// C09, C19: every line-break character is skipped, carriage returns included: it stops at something else
+//@   ensures [C09,C19:eol] l.ch != '\n' && l.ch != '\r'
 //@   loop 1
 //@     invariant LexInv(l) && Advanced(l, old(l.position), old(l.input), old(l.lineNumber)) && ValidUTF8(l.input)
 //@     invariant skipped ==> l.position > old(l.position)
@@ -161,7 +163,11 @@ package lexer
 //@   ensures [C19:inv] LexInv(l) && Advanced(l, old(l.position), old(l.input), old(l.lineNumber))
 //@   ensures [C18:progress] old(l.ch) == '"' ==> l.position > old(l.position)
 //@   ensures [C19:endline] old(l.ch) == '"' ==> (old(l.lineNumber) <= result1 && result1 <= l.lineNumber)
+// C09, C19: the run of adjacent literals is maximal: whatever blank space follows a closing quote is skipped, and a
+// literal that follows it is joined - reading stops at a character that is neither blank nor a quote
+//@   ensures [C09,C19:after-literal] old(l.ch) == '"' ==> (!IsBlank(l.ch) && l.ch != '"')
 //@   loop 1
+//@     invariant [C09,C19:after-literal-inv] l.position > old(l.position) ==> !IsBlank(l.ch)
 // C09: adjacent literals are joined by one newline; what is already collected is never touched
 //@     invariant [C09:pieces] len(sb.pieces) >= 0
 //@     transition [C09:join] KeptPieces(sb.pieces, prev(sb.pieces)) && len(sb.pieces) >= len(prev(sb.pieces))
